@@ -126,6 +126,45 @@ def py_stack_size(d, n, which="1"):
     return py_eval(d["stack%sSize" % which], n=n, log=lg)
 
 
+def find_failing_n(repo, hi=4097):
+    """failing-input search for the proof stage: smallest chain length n >= 4 for which the caller's text (as extracted)
+    lets theta_chain_comput_rec write P1[stacklen] outside stack1/stack2, touches out->steps outside its allocation, or
+    does not cover the steps 0 .. n-2 exactly once.  Returns (n, reason) or None."""
+    import functools
+    d = extract(repo)
+
+    @functools.lru_cache(maxsize=None)
+    def need(ln):            # slots the recursion of the C (right = 2*len/3, left = len - right) writes above its entry level
+        if ln <= 1:
+            return 0
+        r = 2 * ln // 3
+        return max(1 + need(r), need(ln - r))
+    for n in range(4, hi):
+        caps = [py_stack_size(d, n, "1"), py_stack_size(d, n, "2")]
+        ln, idx, sl, tot = (py_eval(d[k], n=n) for k in ("recLen", "recIndex", "recStacklen", "recTotal"))
+        top = sl + need(ln) - 1 if ln > 1 else sl - 1          # highest slot written or evaluated
+        for w, cap in zip("12", caps):
+            for what, slot in (("stack%s[%s] = Q%s" % (w, d["stack%sPush" % w], w), py_eval(d["stack%sPush" % w], n=n)),
+                               ("Q%s = stack%s[%s]" % (w, w, d["stack%sPop" % w]), py_eval(d["stack%sPop" % w], n=n)),
+                               ("P%s[stacklen] in theta_chain_comput_rec" % w, top)):
+                if not (0 <= slot < cap):
+                    return n, "%s: slot %d outside stack%s[%s] = %d elements" % (what, slot, w, d["stack%sSize" % w], cap)
+        alloc = min(py_eval(d["stepsMalloc"], n=n), py_eval(d["stepsVla"], n=n))
+        touched = list(range(idx, idx + max(ln, 0)))
+        for i in range(py_eval(d["tailLo"], n=n), py_eval(d["tailHi"], n=n)):
+            if any(py_eval(e, n=n, i=i) < 0 for e in d["tailDbl"]):
+                return n, "trailing loop: negative double_iter count at i = %d" % i
+            touched += sorted(set(py_eval(e, n=n, i=i) for e in d["tailStepIdx"]))
+        for i in touched + [py_eval(d["splitIdx"], n=n)]:
+            if not (0 <= i < alloc):
+                return n, "out->steps[%d] outside the %d allocated elements" % (i, alloc)
+        if touched != list(range(n - 1)) or tot != n or py_eval(d["splitIdx"], n=n) != n - 2:
+            return n, "steps computed %r (total_length %d, splitting reads %d): not exactly 0 .. n-2" % (touched[:8] + ["..."] + touched[-4:], tot, py_eval(d["splitIdx"], n=n))
+        if py_eval(d["kernelDbl1"], n=n) != 2 or py_eval(d["kernelDbl2"], n=n) != 2:
+            return n, "kernel of the first recursive step is not [4]Q"
+    return None
+
+
 def lean_text(d):
     L = []
     A = L.append
